@@ -30,6 +30,8 @@ class C12(Prop):
         "NV.C12.growBy_pos",
         "NV.C12.cSpaceRule_spec",
         "NV.C12.arrivals_held",
+        "NV.C12.held_not_idle",
+        "NV.C12.held_keeps_table",
         "NV.C12.arrivals_append_partial",
         "NV.C12.arrivals_discard",
         "NV.C12.userIO_ovf",
